@@ -241,23 +241,25 @@ class AsyncChannel(BaseChannel):
         read_buf = BytesIO(buf)
 
         start = time.time()
-        while True:
-            with suppress(ScrapliTimeout):
-                b = await self.read()
-                read_buf.write(b)
+        try:
+            while True:
+                with suppress(ScrapliTimeout):
+                    b = await self.read()
+                    read_buf.write(b)
 
-            search_buf = self._process_read_buf(read_buf=read_buf)
+                search_buf = self._process_read_buf(read_buf=read_buf)
 
-            if (time.time() - start) > read_duration:
-                break
-            if any(channel_output in search_buf for channel_output in channel_outputs):
-                break
-            if re.search(pattern=regex_channel_outputs_pattern, string=search_buf):
-                break
-            if re.search(pattern=search_pattern, string=search_buf):
-                break
-
-        _transport_args.timeout_transport = previous_timeout_transport
+                if (time.time() - start) > read_duration:
+                    break
+                if any(channel_output in search_buf for channel_output in channel_outputs):
+                    break
+                if re.search(pattern=regex_channel_outputs_pattern, string=search_buf):
+                    break
+                if re.search(pattern=search_pattern, string=search_buf):
+                    break
+        finally:
+            # always put the transport timeout back, however the read loop is left
+            _transport_args.timeout_transport = previous_timeout_transport
 
         return read_buf.getvalue()
 
